@@ -39,8 +39,18 @@ func c19r1(c *Ctx) {
 		}
 		ob.Check(good && writes == 1, nil, "DBStore.PruneBlock must perform exactly one write: the block record as (header, nil, nil); found %d bucket-writing calls or a non-nil body/supplement", writes)
 	}
-	// callers of Store.PruneBlock
+	// callers of Store.PruneBlock (helpers, closures and iterators expanded)
+	var units []*ir.Func
+	for _, v := range r.vs.Roots {
+		units = append(units, v)
+		units = append(units, v.Lits...)
+	}
 	for _, f := range c.P.Funcs {
+		if f.Pkg.PkgPath != ir.PkgPath("chain") {
+			units = append(units, f)
+		}
+	}
+	for _, f := range units {
 		for _, call := range f.CallsTo(false, r.storePrune) {
 			top := f.Top()
 			g := f.Graph()
@@ -272,7 +282,7 @@ func reachOnlyViaFrom(f *ir.Func, from, to *cfgx.Node, edges []*cfgx.Edge) bool 
 	for _, e := range from.Succs {
 		st = append(st, cfgx.StartAfter(e, 0))
 	}
-	vs := f.Graph().Explore(st, cfgx.Walker{
+	vs := f.ExploreFeasible(st, cfgx.Walker{
 		AtNode: func(n *cfgx.Node, s cfgx.State) (cfgx.State, bool) { return s, n != from },
 		OnEdge: func(e *cfgx.Edge, s cfgx.State) (cfgx.State, bool) { return s, !cut[e] },
 	})
